@@ -194,6 +194,14 @@ def evalModelClosed (li : LangInfo) : String :=
       | some (_, _, vis, name) => vis == 'n' && !name.contains '@' && !li.ginl.contains v &&
           (match li.syms[li.L.tokenCount + v]? with | some (si, _) => si.named && si.visible && showName si.name == name | none => false)
       | none => false)).length
+    -- every kind the (inlined) productions of a described rule can show is a kind of the language's symbol table
+    let kindBad : Option TypeRef := checked.findSome? (fun v => (G.prodsOf v).findSome? (fun p => p.findSome? (fun st =>
+      match Derive.visTy G st with
+      | some ty => if li.syms.any (fun (si, _) => si.visible && si.named == ty.named && showName si.name == ty.kind) then none else some ty
+      | none => none)))
+    match kindBad with
+    | some ty => s!"FAIL var={ty.kind.replace " " "_"}/derivable-kind-without-symbol prod=0"
+    | none =>
     match shapeBad with
     | some what => s!"FAIL var={what.replace " " ""} prod=shape"
     | none =>
